@@ -6,6 +6,20 @@ HERE = os.path.dirname(os.path.dirname(os.path.abspath(__file__)))
 PROPS = [json.loads(l)['id'] for l in open(os.path.join(HERE, 'properties.jsonl'))]
 
 CHECKS = {
+ 'C06': dict(category='other', design_ref='DESIGN.md section 4 (C06)',
+    text='Partial proof + exhaustive ground + bounded. Proved: the real loop body and epilogue of LuaEchoWriter.to_lines are executed '
+         'symbolically for an arbitrary pending list and an arbitrary token of every class; each step either appends the token code or '
+         'flushes pending ++ [code] as one chunk, and by an induction whose steps z3 discharges (sequence theory) the concatenation '
+         'of all chunks equals the concatenation of all token codes, for token lists of every length. Read off the real lexer: a '
+         'matcher-table token stores the matched text verbatim and exactly that many bytes are consumed; only TokString re-spells. '
+         'Exhaustive (finite, complete for their domain): all 131,584 one- and two-byte string values x both quotes through the real '
+         'TokString.code, an independent decoder and the real lexer; all ~19,600 escape units of the dialect x continuation kinds '
+         'through the real lexer against the escape rules.',
+    note='Bounded only (never counted as proved): coverage of the source by multi-line tokens (line continuation, long strings, block '
+         'comments), CRLF, missing final newline -- echo of enumerated and random sources as one chunk and as per-line chunks. The step '
+         'from byte pairs to all strings relies on the per-byte concatenation shape of the spelling and on the decoders\' bounded '
+         'look-ahead (stated assumption). \\z is outside the dialect.',
+    technique='contract-based verification: symbolic execution of the real echo-writer loop body + induction discharged by z3 (sequences); exhaustive ground evaluation of the real string encoder/decoder on finite domains; bounded native echo'),
  'C13': dict(category='proof', design_ref='DESIGN.md section 4 (C13)',
     text='do_build is executed symbolically from its real source (the six-section loop unrolled exactly, state merging at joins; '
          'about 1100 paths). At the one call of file.to_file it is proved, for every combination of optional arguments and every '
